@@ -44,6 +44,11 @@ ASSUMPTIONS = [
     "valid inputs: validate_schema(build(A)) == [], extend_schema accepts B (its SDL validation) and the result validates",
     "validExt: B defines no type called Query/Mutation/Subscription unless A has an explicit schema definition "
     "(build_ast_schema infers roots by name for a *document*, extend_schema does not — observation O2 in the report)",
+    "extensions of built-in scalars are valid against a schema but make A+B an invalid document on its own; for those "
+    "documents only extend_schema's own clauses are checked (original unchanged, expected content), not equality with build(A+B)",
+    "extensions of *specified* directives (experimental syntax) are honoured by extend_schema and ignored by "
+    "build_ast_schema; both are outside the printed content and outside find_schema_changes, so they are compared "
+    "only through the 'original / globals unchanged' oracle (observation O3 in the report)",
     "names are ASCII (GraphQL names), so \\d of natural_comparison_key is 0-9",
     "change descriptions are compared by kind and by the names they mention first, not by wording",
 ]
@@ -51,7 +56,9 @@ EXPLANATION = (
     "Theorems: changes_refl, sort_only_reorders, sort_idem, sort_perm, sort_sorted, extend_noop, extend_extend, "
     "extend_eq_build_partial (+ extend_eq_build_full as the open statement), per-kind merge laws, collect_append, change_real. "
     "Correspondence: model extend/build/sort/changes/natural order vs the implementation. Oracles: extend == build(A+B) in "
-    "text, content and changes; original untouched (text and object identity); no-op returns the same object; sort reports "
+    "text, content and changes; original untouched (deep snapshot of every attribute of every type and directive incl. the "
+    "specified ones, object identities, introspection result, and the library's global specified_directives / "
+    "specified_scalar_types / introspection_types before and after each extend and each sort); no-op returns the same object; sort reports "
     "no change, is idempotent and keeps the content as multisets; self-comparison is empty; every reported change between a "
     "schema and a single-edit mutant comes with different printed forms of a mentioned type/directive."
 )
@@ -209,6 +216,123 @@ def printed_units(schema):
     return out
 
 
+# ----------------------------------------------------------------------------- deep snapshots ("unchanged")
+
+
+def _default_snap(a):
+    from graphql.language import print_ast
+    from graphql.pyutils import Undefined
+
+    d = getattr(a, "default", None)
+    dv = getattr(a, "default_value", Undefined)
+    out = []
+    if d is not None:
+        out.append(("default", id(d), repr(d.value), print_ast(d.literal) if d.literal is not None else None))
+    if dv is not Undefined:
+        out.append(("default_value", repr(dv)))
+    return tuple(out)
+
+
+def _arg_snap(name, a):
+    return (name, id(a), str(a.type), id(a.type), a.description, a.deprecation_reason, _default_snap(a),
+            getattr(a, "out_name", None), id(a.ast_node), tuple(sorted(map(str, a.extensions))))
+
+
+def directive_snap(d):
+    return ("@" + d.name, id(d), d.description, d.deprecation_reason, bool(d.is_repeatable),
+            tuple(loc.name for loc in d.locations), tuple(_arg_snap(n, a) for n, a in d.args.items()),
+            id(d.ast_node), tuple(id(n) for n in d.extension_ast_nodes), tuple(sorted(map(str, d.extensions))))
+
+
+def type_snap(t):
+    import graphql as G
+
+    head = (t.name, id(t), type(t).__name__, t.description, id(t.ast_node),
+            tuple(id(n) for n in t.extension_ast_nodes), tuple(sorted(map(str, t.extensions))))
+    if G.is_scalar_type(t):
+        body = (t.specified_by_url,)
+    elif G.is_object_type(t) or G.is_interface_type(t):
+        body = (
+            id(t.fields),
+            tuple((n, id(f), str(f.type), id(f.type), f.description, f.deprecation_reason, id(f.ast_node),
+                   tuple(_arg_snap(an, a) for an, a in f.args.items())) for n, f in t.fields.items()),
+            tuple((i.name, id(i)) for i in t.interfaces),
+        )
+    elif G.is_union_type(t):
+        body = (tuple((m.name, id(m)) for m in t.types),)
+    elif G.is_enum_type(t):
+        body = (tuple((n, id(v), repr(v.value), v.description, v.deprecation_reason, id(v.ast_node)) for n, v in t.values.items()),)
+    else:
+        body = (id(t.fields), tuple(_arg_snap(n, a) for n, a in t.fields.items()), bool(t.is_one_of))
+    return head + body
+
+
+def schema_snap(schema):
+    """Every attribute of the schema, of all its types and of all its directives (the specified
+    ones included), with object identities — what 'the original is left unchanged' means."""
+    return {
+        "schema": (schema.description, id(schema.query_type), id(schema.mutation_type), id(schema.subscription_type),
+                   id(schema.ast_node), tuple(id(n) for n in schema.extension_ast_nodes), tuple(schema.type_map),
+                   tuple(id(d) for d in schema.directives)),
+        "directives": tuple(directive_snap(d) for d in schema.directives),
+        "types": tuple(type_snap(t) for t in schema.type_map.values()),
+    }
+
+
+def globals_snap():
+    from graphql.type import introspection_types, specified_directives, specified_scalar_types
+
+    return {
+        "specified_directives": tuple(directive_snap(d) for d in specified_directives),
+        "specified_scalar_types": tuple(type_snap(t) for t in specified_scalar_types.values()),
+        "introspection_types": tuple(type_snap(t) for t in introspection_types.values()),
+    }
+
+
+def introspection_of(schema):
+    from graphql.utilities import introspection_from_schema
+
+    try:
+        return introspection_from_schema(schema)
+    except Exception as e:  # noqa: BLE001
+        return f"raises {type(e).__name__}"
+
+
+def snap_diff(before, after):
+    """(section, name) of the first difference between two snapshots, or None."""
+    for key in before:
+        if before[key] == after[key]:
+            continue
+        b, a = before[key], after[key]
+        if isinstance(b, tuple) and isinstance(a, tuple) and len(a) == len(b) and key != "schema":
+            for x, y in zip(b, a):
+                if x != y:
+                    attr = next((i for i, (p, r) in enumerate(zip(x, y)) if p != r), -1)
+                    return key, f"{x[0]}[{attr}]"
+        return key, "*"
+    return None
+
+
+class Unchanged:
+    """Snapshot of a schema and of the library's global type-system objects around an operation."""
+
+    def __init__(self, schema, with_introspection=True):
+        self.schema = schema
+        self.snap = schema_snap(schema)
+        self.glob = globals_snap()
+        self.intro = introspection_of(schema) if with_introspection else None
+
+    def check(self, rep, case, op, source):
+        d = snap_diff(self.snap, schema_snap(self.schema))
+        if d:
+            rep.failures.append(Failure(f"{op}-mutates-original-{d[0]}", f"{op} changed the original schema object: {d[0]} {d[1]}", case, list(d), "unchanged", source))
+        elif self.intro is not None and introspection_of(self.schema) != self.intro:
+            rep.failures.append(Failure(f"{op}-mutates-original-introspection", f"{op} changed the introspection result of the original schema", case, None, "unchanged", source))
+        gd = snap_diff(self.glob, globals_snap())
+        if gd:
+            rep.failures.append(Failure(f"{op}-mutates-global-{gd[0]}", f"{op} changed the library's global {gd[0]}: {gd[1]}", case, list(gd), "unchanged", source))
+
+
 # ----------------------------------------------------------------------------- checks on one schema
 
 
@@ -222,6 +346,7 @@ def check_sort_and_self(rep, schema, case, lines, meta, universe):
         rep.failures.append(Failure("self-comparison-" + ch[0][0], "find_schema_changes(s, s) is not empty", case, ch[:5], [], "C19 changes_refl"))
     sir = g.schema_ir(schema)
     text = G.print_schema(schema)
+    guard = Unchanged(schema, with_introspection=False)
     try:
         ss = lexicographic_sort_schema(schema)
     except Exception as e:  # noqa: BLE001
@@ -235,6 +360,7 @@ def check_sort_and_self(rep, schema, case, lines, meta, universe):
         rep.failures.append(Failure("sort-changes-content", "sorting changed more than the order", case, None, None, "C19 sort_only_reorders"))
     if G.print_schema(schema) != text:
         rep.failures.append(Failure("sort-mutates-original", "sorting changed the original schema", case, None, None, "C19 sort"))
+    guard.check(rep, case, "sort", "C19 sort leaves the original unchanged")
     t1 = G.print_schema(ss)
     t2 = G.print_schema(lexicographic_sort_schema(ss))
     if t1 != t2:
@@ -334,7 +460,14 @@ def run_ext_case(rep, seed, idx, lines, meta):
     case = dict(case, A=A, B=B)
     before_text = G.print_schema(a)
     before_ids = type_identity(a)
+    guard = Unchanged(a)
     docB = g.parse_sdl(B)
+    from graphql.validation.validate import validate_sdl
+
+    if validate_sdl(docB, a):
+        # not "an extension document valid against A" (extend_schema reports this as TypeError)
+        rep.stats["extension_rejected"] = rep.stats.get("extension_rejected", 0) + 1
+        return
     try:
         e = extend_schema(a, docB)
     except GraphQLError:
@@ -343,6 +476,8 @@ def run_ext_case(rep, seed, idx, lines, meta):
     except Exception as ex:  # noqa: BLE001
         rep.failures.append(Failure("extend-raises", "extend_schema raises a non-GraphQL error", case, f"{type(ex).__name__}: {ex}"[:300], "a schema or GraphQLError", "C19 extend"))
         return
+    # the original (and the library's shared built-in objects) must be untouched whatever B was
+    guard.check(rep, case, "extend", "C19 extend_pure")
     if G.validate_schema(e):
         rep.stats["extension_invalid"] = rep.stats.get("extension_invalid", 0) + 1
         return
@@ -351,8 +486,11 @@ def run_ext_case(rep, seed, idx, lines, meta):
     rep.stats["extensions"] = rep.stats.get("extensions", 0) + 1
     for it in items:
         rep.stats["item_" + it[0]] = rep.stats.get("item_" + it[0], 0) + 1
+    builtin_ext = g.has_builtin_ext(items)
+    if builtin_ext:
+        rep.stats["builtin_scalar_extensions"] = rep.stats.get("builtin_scalar_extensions", 0) + 1
     try:
-        c = g.build(A + "\n" + B)
+        c = g.build(A + "\n" + B) if not builtin_ext else e
     except Exception as ex:  # noqa: BLE001
         rep.failures.append(Failure("build-of-A-plus-B-fails", "B extends build(A) but A+B does not build", case, f"{type(ex).__name__}: {ex}"[:300], "a schema", "C19 extend_eq_build"))
         return
@@ -389,8 +527,9 @@ def run_ext_case(rep, seed, idx, lines, meta):
     meta.append(("eq", "extend_schema", case, "ok " + g.sx_schema(eir) + " new"))
     lines.append(f"extend {sa} ( L other other )")
     meta.append(("eq", "extend_schema(no-op)", case, "ok " + sa + " same"))
-    lines.append("build " + g.sx_doc(g.parse_sdl(A + "\n" + B)))
-    meta.append(("eq", "build_schema(A+B)", case, "ok " + g.sx_schema(cir)))
+    if not builtin_ext:
+        lines.append("build " + g.sx_doc(g.parse_sdl(A + "\n" + B)))
+        meta.append(("eq", "build_schema(A+B)", case, "ok " + g.sx_schema(cir)))
     # the extended schema is another schema to sort / compare with itself
     check_sort_and_self(rep, e, dict(case, on="extended"), lines, meta, universe_of(eir))
     if len(rep.samples) < 2:
